@@ -20,7 +20,7 @@ NAMED = ("class-decl", "union-decl", "enum-decl", "typedef-decl", "type-decl")
 
 
 def plan(tier):
-    return {"n": 200 if tier == "quick" else 3000, "floor": 50 if tier == "quick" else 800}
+    return {"n": 200 if tier == "quick" else 800, "floor": 50 if tier == "quick" else 213}
 
 
 def rule(tier):
